@@ -9,7 +9,8 @@ SPEC = dict(
          'either computed a root/time that was compared with the library output or demanded rejection. '
          'Further: a derived registration time must fit the signed result type (publication times of 2^63 and more). '
          'A refused aggregation (single chain, link list, list of chains) must not hand out a root. '
-         'Every other aggregation is preceded by a root-only call (no level output) on the same chain object.',
+         'Every other aggregation is preceded by a root-only call (no level output) on the same chain object. '
+         'A metadata sibling edited in place through its setter: the link list aggregates to the root of the record as it is now.',
     bounds=dict(
         quick='aggregation: all link sequences len<=2 over 2 dirs x 4 sibling kinds x 14 corrections x 6 start levels; all 10 algorithm ids x 10 input algorithms x len<=2; all 2^n direction patterns n<=8 (+n=61..63 boundary patterns) incl. shape index; long chains 13..257 around level 255; chain lists of 1..3 chains; calendar roots: all chains len<=4 over dir x 3 sibling algorithms x 3 input algorithms; registration time: all shapes len<=8 x all P in 0..256, plus 12 large-P boundary families with all one-link perturbations',
         thorough='as quick with link sequences len<=3 (7 corrections), direction patterns n<=12, calendar roots len<=6, registration time all shapes len<=12 x all P in 0..4096'),
